@@ -227,6 +227,7 @@ qmexists(int domaindirfd, const char *suff1, const size_t len, const int def, in
 			return 1;
 		case ENOENT:
 		case EISDIR:
+		case ENAMETOOLONG:
 			return 0;
 		default:
 			tmpfd = errno;
@@ -309,7 +310,7 @@ user_exists(const string *localpart, const char *domain, struct userconf *dsp)
 		ds->userdirfd = get_dirfd(ds->domaindirfd, fnbuf);
 		if (ds->userdirfd >= 0) {
 			return 1;
-		} else if ((errno != ENOENT) && (errno != ENOTDIR)) {
+		} else if ((errno != ENOENT) && (errno != ENOTDIR) && (errno != ENAMETOOLONG)) {
 			/* if e.g. a file with the given name exists that is no error,
 			 * it just means that it is not a user directory with that name. */
 			res = errno;
